@@ -7,7 +7,7 @@
 use crate::exec::{Case, RunOutput, Shared};
 use crate::hist::fold_fs_stats;
 use crate::lin::{check_register, LinResult, RegEvent, RegOp};
-use crate::plan::{tag_of, Op, Plan};
+use crate::plan::{tag_of, Op, Plan, Val};
 use crate::simfs::{classify, FileClass, MutOp, SimFs};
 use crate::world::*;
 use raindb::db::DatabaseDescriptor;
@@ -93,10 +93,96 @@ fn dump_iter(it: &mut dyn RainDbIterator<Key = Vec<u8>, Error = RainDBError>) ->
     Ok(out)
 }
 
-/// Check that every key group carries one tag in a consistent read (C06).
+/// Keys that exactly one client writes (besides the single-client setup phase), with the states
+/// that key set goes through: the state after the setup and after each of the owner's writes, in
+/// program order. The owner's writes are sequential, so at every instant the database restricted
+/// to these keys is one of these states - provided batches are atomic and views are taken at one
+/// instant. Values are compared by tag; `None` = absent.
+struct Owned {
+    client: usize,
+    keys: Vec<usize>,
+    states: Vec<Vec<Option<u32>>>,
+}
+
+fn owned_sets(plan: &Plan) -> Vec<Owned> {
+    let nk = plan.keys.len();
+    fn writes_of(ops: &[Op], nk: usize) -> Vec<Vec<(usize, Option<&Val>)>> {
+        ops.iter()
+            .filter_map(|o| match o {
+                Op::Put { k, v } => Some(vec![(*k % nk, Some(v))]),
+                Op::Delete { k } => Some(vec![(*k % nk, None)]),
+                Op::Batch { items } => Some(items.iter().map(|(k, v)| (*k % nk, v.as_ref())).collect()),
+                _ => None,
+            })
+            .collect()
+    }
+    let per_client: Vec<Vec<Vec<(usize, Option<&Val>)>>> = plan.clients.iter().map(|c| writes_of(c, nk)).collect();
+    let mut writers: BTreeMap<usize, BTreeSet<usize>> = BTreeMap::new();
+    for (c, ws) in per_client.iter().enumerate() {
+        for w in ws {
+            for (k, _) in w {
+                writers.entry(*k).or_default().insert(c);
+            }
+        }
+    }
+    // a value without a tag (the empty value) cannot be compared: such keys are left out
+    let untagged = |v: Option<&Val>| v.map(|v| v.len == 0).unwrap_or(false);
+    let mut setup: BTreeMap<usize, Option<u32>> = BTreeMap::new();
+    let mut bad: BTreeSet<usize> = BTreeSet::new();
+    for w in writes_of(&plan.ops, nk) {
+        for (k, v) in w {
+            if untagged(v) {
+                bad.insert(k);
+            }
+            setup.insert(k, v.map(|v| v.tag));
+        }
+    }
+    let mut out = vec![];
+    for (c, ws) in per_client.iter().enumerate() {
+        for w in ws {
+            for (k, v) in w {
+                if untagged(*v) {
+                    bad.insert(*k);
+                }
+            }
+        }
+        let keys: Vec<usize> = writers.iter().filter(|(k, s)| s.len() == 1 && s.contains(&c) && !bad.contains(*k)).map(|(k, _)| *k).collect();
+        if keys.len() < 2 || ws.len() > 200 {
+            continue;
+        }
+        let mut cur: Vec<Option<u32>> = keys.iter().map(|k| setup.get(k).copied().flatten()).collect();
+        let mut states = vec![cur.clone()];
+        for w in ws {
+            for (k, v) in w {
+                if let Some(i) = keys.iter().position(|x| x == k) {
+                    cur[i] = v.map(|v| v.tag);
+                }
+            }
+            if states.last() != Some(&cur) {
+                states.push(cur.clone());
+            }
+        }
+        out.push(Owned { client: c, keys, states });
+    }
+    out
+}
+
+/// Check that every key group carries one tag in a consistent read (C06), and that the keys owned
+/// by one writer show a state that exists between two of its writes.
 fn check_groups(out: &Shared, plan: &Plan, dump: &Dump, how: &str, idx: usize, groups: &[Vec<usize>]) {
     with_out(out, |o| o.stats.bump("group_reads_checked", groups.len() as u64));
     let m: BTreeMap<&[u8], &[u8]> = dump.iter().map(|(k, v)| (k.as_slice(), v.as_slice())).collect();
+    for o in owned_sets(plan) {
+        let seen: Vec<Option<u32>> = o.keys.iter().map(|k| m.get(plan.keys[*k].as_slice()).and_then(|v| tag_of(v))).collect();
+        with_out(out, |x| x.stats.bump("owned_key_set_reads_checked", 1));
+        if !o.states.contains(&seen) {
+            push_finding(
+                out,
+                Finding::new(&["C06", "C03"], "state-between-batches", how, format!("{}: keys {:?} are written by client {} only, one write after the other, but the read shows {:?}, which is not the state after any of its writes (the {} states that exist: {:?})", how, o.keys, o.client, seen, o.states.len(), o.states.iter().take(12).collect::<Vec<_>>()), Some(idx)),
+            );
+            return;
+        }
+    }
     for g in groups {
         let tags: Vec<Option<u32>> = g.iter().map(|k| m.get(plan.keys[*k % plan.keys.len()].as_slice()).and_then(|v| tag_of(v))).collect();
         if tags.windows(2).any(|w| w[0] != w[1]) {
